@@ -116,5 +116,5 @@ EngSound == \A x \in NumsOfDocs, y \in Consts, o \in Ops :
 Emit == pc = "done" =>
   PrintT("REPLAY " \o ToJson([topic |-> "C09", form |-> form, oracle |-> TRUE, wt |-> TRUE,
                                src |-> CaseSrc, docs |-> Docs,
-                               plan |-> [tri |-> TRUE, sws |-> << <<>>, <<TRUE, TRUE, TRUE, TRUE>> >>]]))
+                               plan |-> [tri |-> TRUE, eng |-> TRUE, sws |-> << <<>>, <<TRUE, TRUE, TRUE, TRUE>> >>]]))
 =============================================================================
